@@ -1347,7 +1347,7 @@ impl Property for C02 {
     }
     fn budget(tier: Tier) -> u64 {
         match tier {
-            Tier::Quick => 600_000,
+            Tier::Quick => 800_000,
             Tier::Thorough => 8_000_000,
         }
     }
